@@ -188,19 +188,24 @@ def main():
                     if relevant(f2, pid, serves) and f2.key() not in [f.key() for f in r.failures]:
                         undecided.append("%s: unstable obligation (fails for some solver seeds only): %s" % (unit.NAME, describe(f2)))
         failed_clause_ids = set()
+        kf_clause_ids = set()
         for fl in confirmed:
             kf = match_kf(fl, u, pid, kfs)
             if kf:
                 known.append((kf, unit.NAME, fl))
+                for c in fl.clauses:
+                    kf_clause_ids.add(c[0])
             else:
                 violations.append((unit.NAME, fl))
-            for c in fl.clauses:
-                failed_clause_ids.add(c[0])
+                for c in fl.clauses:
+                    failed_clause_ids.add(c[0])
         # obligations: named clauses carrying this property's tag in this unit
         seen = set()
         for o in g.origins:
             if o.get("marked") and pid in o.get("tags", []) and o["clause"] not in seen:
                 seen.add(o["clause"])
+                if o["clause"] in kf_clause_ids:
+                    continue      # a listed known finding: reported separately, not counted as an obligation of this run
                 obligations += 1
                 if o["clause"] not in failed_clause_ids:
                     discharged += 1
